@@ -390,6 +390,46 @@ func c07b(c *Ctx) {
 			}
 		}
 	})
+	// an edge that carries the counter unchanged must not lie after a line end (flush of the
+	// current line to the output) of the same iteration
+	{
+		var flushes []ssa.Instruction
+		for _, b := range builderCalls(fn) {
+			if b.method == "WriteString" {
+				if call, ok := b.arg.(*ssa.Call); ok && calleeName(call) == "(*strings.Builder).String" && loopBody(numPhi.Block())[b.call.Block()] {
+					flushes = append(flushes, b.call.(ssa.Instruction))
+				}
+			}
+		}
+		headFirst := numPhi.Block().Instrs[0]
+		bad := ""
+		seenPhi := map[*ssa.Phi]bool{}
+		var scan func(v ssa.Value)
+		scan = func(v ssa.Value) {
+			p, ok := v.(*ssa.Phi)
+			if !ok || seenPhi[p] {
+				return
+			}
+			seenPhi[p] = true
+			for i, e := range p.Edges {
+				if p == numPhi && !numPhi.Block().Dominates(p.Block().Preds[i]) {
+					continue
+				}
+				if e == ssa.Value(numPhi) && p != numPhi {
+					pred := p.Block().Preds[i]
+					last := pred.Instrs[len(pred.Instrs)-1]
+					for _, f := range flushes {
+						if f.Block() == pred || canReachAvoidingHead(f, last, headFirst) {
+							bad = c.W.Pos(f.Pos())
+						}
+					}
+				}
+				scan(e)
+			}
+		}
+		scan(numPhi)
+		c.Check(bad == "" && len(flushes) == 2, "line-counter/changes-at-every-line-end", c.W.Pos(numPhi.Pos()), "after a line has been flushed the line number is incremented or reset before the next word", "after the line end at "+bad+" the iteration can finish with the line number unchanged: the following breaks would use the wrong row (\\n vs \\l)")
+	}
 	c.Check(inc == 2 && zero == 1 && okZero, "line-counter/discipline", c.W.Pos(numPhi.Pos()), "line number +1 at every line end, 0 after a paragraph break", fmt.Sprintf("line counter updates: %d increments, %d resets (paragraph-guarded: %v); expected 2 increments and 1 paragraph reset", inc, zero, okZero))
 }
 
